@@ -78,7 +78,7 @@ func (vc *VC) registerGhosts() {
 			continue // the package of that type is not part of this run: the ghost cannot be mentioned
 		}
 		if strings.Contains(srt, "$") {
-			if vc.mode != ValueMode {
+			if vc.mode != ValueMode && !onlySliceTypes(srt) {
 				continue
 			}
 			srt = vc.eng.expandGhostSort(vc, srt)
@@ -972,4 +972,15 @@ func (vc *VC) invariantsOf(con *Contract) []*Invariant {
 		}
 	}
 	return out
+}
+
+// onlySliceTypes: every Go type mentioned in a ghost sort is a slice type ($[]byte): such a ghost has the same meaning
+// (sort Slice) in heap mode.
+func onlySliceTypes(srt string) bool {
+	for _, tok := range sortAtoms(srt) {
+		if strings.HasPrefix(tok, "$") && !strings.HasPrefix(tok, "$[]") {
+			return false
+		}
+	}
+	return true
 }
